@@ -245,7 +245,11 @@ pub fn fam_bounds(o: &mut Rep, seed: u64) {
     for b in [None, Some((SO3State::identity(), 0.5)), Some((unit_q(0.3, -0.2, 0.1, 0.9), 1.0)), Some((SO3State::new(1.0, 0.0, 0.0, 0.0), 2.5)), Some((SO3State::identity(), PI)), Some((SO3State::identity(), 10.0))] {
         let lab = format!(" {:?}", b.as_ref().map(|x| x.1));
         let sp = SO3StateSpace::new(b).unwrap();
-        bounds_ops(o, seed, &so3_kit(&sp, &mut g, &lab), &same_so3, true);
+        let mut kit = so3_kit(&sp, &mut g, &lab);
+        // degenerate inputs of enforce_bounds: the zero quaternion and one below the normalisation threshold
+        kit.states.push(SO3State::new(0.0, 0.0, 0.0, 0.0));
+        kit.states.push(SO3State::new(1.0e-12, 0.0, -1.0e-12, 0.0));
+        bounds_ops(o, seed, &kit, &same_so3, true);
     }
     compound_bounds(o, seed);
 }
@@ -531,5 +535,47 @@ fn compound_kits(o: &mut Rep, seed: u64, metric_mode: bool) {
             diam: None, canonical: Box::new(move |a: &CompoundState| (0..lay3.len()).all(|i| comp_canonical(lay3[i], &*a.components[i]))),
             show: Box::new(|a: &CompoundState| format!("{:?}", a.components)), speed_tol: if has_so3 { 1.0e-5 } else { 0.0 }, excess: Box::new(|_| 0.0) };
         if metric_mode { metric(o, seed, &kit); } else { interp(o, seed, &kit); }
+    }
+}
+
+/// C04 premise (convexity of the bounded region under the space's own interpolation), on the regions where it is expected to hold:
+/// boxes in R^n, SO(2) intervals of span <= PI that do not touch the +-PI seam (wider intervals and the seam are known finding D4),
+/// SO(3) cones of radius <= PI/2.  For states inside the region every interpolated state must satisfy the bounds.
+pub fn fam_convex(o: &mut Rep, seed: u64) {
+    let mut g = Lcg(seed.wrapping_add(411));
+    let ts = [0.0, 1.0e-9, 0.25, 0.5, 0.75, 1.0 - 1.0e-9, 1.0];
+    for (lo, hi) in [(-PI / 2.0, PI / 2.0), (-1.0, 2.0), (0.5, 3.0), (-3.0, 0.1)] {
+        let sp = SO2StateSpace::new(Some((lo, hi))).unwrap();
+        let mut vals = vec![lo, hi, 0.5 * (lo + hi), ulp_up(lo), ulp_dn(hi)];
+        for _ in 0..6 { vals.push(g.range(lo, hi)); }
+        for &a in &vals { for &b in &vals { for &t in &ts {
+            let mut out = SO2State { value: 0.0 };
+            sp.interpolate(&SO2State { value: a }, &SO2State { value: b }, t, &mut out);
+            // (rounding can put the result an ulp or two past an end point: tolerance 1e-9)
+            if !(out.value >= lo - 1.0e-9 && out.value <= hi + 1.0e-9) { o.report("convex", seed, format!("C04 SO2 bounds ({:?},{:?}): interpolate({:?}, {:?}, {:?}) = {:?} leaves the interval", lo, hi, a, b, t, out.value)); }
+        } } }
+    }
+    for dim in [1usize, 3] {
+        let sp = RealVectorStateSpace::new(dim, Some(vec![(-2.0, 3.0); dim])).unwrap();
+        let mut sts: Vec<RealVectorState> = vec![RealVectorState::new(vec![-2.0; dim]), RealVectorState::new(vec![3.0; dim])];
+        for _ in 0..6 { sts.push(RealVectorState::new((0..dim).map(|_| g.range(-2.0, 3.0)).collect())); }
+        for a in &sts { for b in &sts { for &t in &ts {
+            let mut out = a.clone();
+            sp.interpolate(a, b, t, &mut out);
+            if out.values.iter().any(|v| !(*v >= -2.0 - 1.0e-9 && *v <= 3.0 + 1.0e-9)) { o.report("convex", seed, format!("C04 R^{} box: interpolate({:?}, {:?}, {:?}) = {:?} leaves the box", dim, a.values, b.values, t, out.values)); }
+        } } }
+    }
+    let h = 0.5f64.sqrt();
+    for (c, r) in [(SO3State::identity(), 0.5), (SO3State::identity(), 1.0), (SO3State::new(h, 0.0, 0.0, h), PI / 2.0), (unit_q(0.3, -0.2, 0.1, 0.9), 0.06)] {
+        let sp = SO3StateSpace::new(Some((c.clone(), r))).unwrap();
+        let mut rng = StdRng::seed_from_u64(seed ^ 0xc04);
+        let mut sts: Vec<SO3State> = vec![c.clone(), SO3State::new(-c.x, -c.y, -c.z, -c.w)];
+        for k in 0..8 { let q = sp.sample_uniform(&mut rng).unwrap(); if k % 2 == 0 { sts.push(q); } else { sts.push(SO3State::new(-q.x, -q.y, -q.z, -q.w)); } }      // both signs of the same rotations
+        for a in &sts { for b in &sts { for &t in &[0.0, 0.25, 0.5, 0.6, 0.9, 1.0] {
+            let mut out = a.clone();
+            sp.interpolate(a, b, t, &mut out);
+            let dev = sp.distance(&c, &out);
+            if !(dev <= r + 1.0e-9) { o.report("convex", seed, format!("C04 SO3 cone {:?}: interpolate(({:?},{:?},{:?},{:?}), ({:?},{:?},{:?},{:?}), {:?}) is {:?} rad from the centre", r, a.x, a.y, a.z, a.w, b.x, b.y, b.z, b.w, t, dev)); }
+        } } }
     }
 }
